@@ -17,6 +17,119 @@ thread_local! {
     static GSTRUCTS: RefCell<HashSet<String>> = RefCell::new(HashSet::new());
     /// enums emitted without `deriving DecidableEq, Repr`
     static NO_DERIVE: RefCell<HashSet<String>> = RefCell::new(HashSet::new());
+    /// structure → the field whose type is a bare type parameter of the structure (`reader: R`)
+    static READER_FIELD: RefCell<HashMap<String, String>> = RefCell::new(HashMap::new());
+    /// Lean names of the generated functions whose value is paired with the list of their `store` effects
+    static STORE_FNS: RefCell<HashSet<String>> = RefCell::new(HashSet::new());
+}
+
+pub(crate) fn register_reader_field(st: &ItemStruct) {
+    let tps: Vec<String> = st.generics.params.iter().filter_map(|g| if let GenericParam::Type(t) = g { Some(t.ident.to_string()) } else { None }).collect();
+    if let Fields::Named(n) = &st.fields {
+        for f in &n.named {
+            if let Type::Path(p) = &f.ty {
+                if tps.iter().any(|t| p.path.is_ident(t.as_str())) {
+                    READER_FIELD.with(|m| m.borrow_mut().insert(st.ident.to_string(), f.ident.as_ref().unwrap().to_string()));
+                }
+            }
+        }
+    }
+}
+pub(crate) fn reader_field(st: &str) -> Option<String> {
+    READER_FIELD.with(|m| m.borrow().get(st).cloned())
+}
+pub(crate) fn mark_store_fn(lean: &str) {
+    STORE_FNS.with(|s| { s.borrow_mut().insert(lean.to_string()); });
+}
+pub(crate) fn is_store_fn(lean: &str) -> bool {
+    STORE_FNS.with(|s| s.borrow().contains(lean))
+}
+
+/// A method (`&self` / `&mut self`) of `impl<R: Read [+ Seek]> T<R>` where `T` keeps its reader in a field of type
+/// `R`: the device of the method is that field.  Returns whether `R: Seek`.
+pub(crate) fn self_reader(self_ty: Option<&str>, sig: &Signature, impl_generics: Option<&Generics>) -> Option<bool> {
+    let st = self_ty?;
+    reader_field(st)?;
+    let recv = sig.inputs.iter().find_map(|a| if let FnArg::Receiver(r) = a { Some(r) } else { None })?;
+    recv.reference.as_ref()?;
+    if sig.generics.params.iter().any(|g| !matches!(g, GenericParam::Lifetime(_))) {
+        return None;
+    }
+    let g = impl_generics?;
+    let mut res = None;
+    let mut n = 0;
+    for p in &g.params {
+        if let GenericParam::Type(tp) = p {
+            n += 1;
+            let mut read = false;
+            let mut seek = false;
+            for b in &tp.bounds {
+                if let TypeParamBound::Trait(tb) = b {
+                    match path_last(&tb.path).as_str() {
+                        "Read" => read = true,
+                        "Seek" => seek = true,
+                        _ => return None,
+                    }
+                }
+            }
+            if read {
+                res = Some(seek);
+            }
+        }
+    }
+    if n == 1 { res } else { None }
+}
+
+/// `ZipError::PASSWORD_REQUIRED`
+pub(crate) fn is_password_required(e: &Expr) -> bool {
+    if let Expr::Path(p) = e {
+        let segs: Vec<String> = p.path.segments.iter().map(|s| s.ident.to_string()).collect();
+        return segs.len() == 2 && segs[0] == "ZipError" && segs[1] == "PASSWORD_REQUIRED";
+    }
+    false
+}
+
+/// `(Except E T)` → (E, T)
+pub(crate) fn split_except(t: &str) -> Option<(String, String)> {
+    let inner = t.strip_prefix("(Except ")?.strip_suffix(')')?;
+    let mut depth = 0;
+    for (i, ch) in inner.char_indices() {
+        match ch {
+            '(' => depth += 1,
+            ')' => depth -= 1,
+            ' ' if depth == 0 => return Some((inner[..i].to_string(), inner[i + 1..].to_string())),
+            _ => {}
+        }
+    }
+    None
+}
+
+/// Does the body call a function whose stores have to be passed on?
+pub(crate) fn calls_store_fn(self_ty: Option<&str>, b: &Block) -> bool {
+    struct V<'x> { self_ty: Option<&'x str>, found: bool }
+    impl<'x, 'ast> syn::visit::Visit<'ast> for V<'x> {
+        fn visit_expr_call(&mut self, c: &'ast ExprCall) {
+            if let Expr::Path(p) = &*c.func {
+                let name = path_last(&p.path);
+                let lean = if p.path.segments.len() == 1 { format!("Gen.{name}") } else { format!("Gen.{}.{name}", p.path.segments[p.path.segments.len() - 2].ident) };
+                if is_store_fn(&lean) {
+                    self.found = true;
+                }
+            }
+            syn::visit::visit_expr_call(self, c);
+        }
+        fn visit_expr_method_call(&mut self, m: &'ast ExprMethodCall) {
+            if let (Some(st), Expr::Path(p)) = (self.self_ty, &*m.receiver) {
+                if p.path.is_ident("self") && is_store_fn(&format!("Gen.{st}.{}", m.method)) {
+                    self.found = true;
+                }
+            }
+            syn::visit::visit_expr_method_call(self, m);
+        }
+    }
+    let mut v = V { self_ty, found: false };
+    syn::visit::Visit::visit_block(&mut v, b);
+    v.found
 }
 
 pub(crate) fn register_gstruct(n: &str) {
@@ -77,6 +190,9 @@ impl<'a> Tr<'a> {
         if args.len() != 1 {
             return None;
         }
+        if name == "Cow" {
+            return Some(self.ty(args[0]).map(|a| format!("(Rs.Cow {a})")));
+        }
         if is_gstruct(name) {
             return Some(self.ty(args[0]).map(|a| format!("(Gen.{name} {a})")));
         }
@@ -84,6 +200,176 @@ impl<'a> Tr<'a> {
             return Some(self.ty(args[0]).map(|a| format!("({l} {a})")));
         }
         None
+    }
+
+    /// `&mut self.reader` / a local bound to it
+    pub(crate) fn t6r2_is_self_reader(&self, a: &Expr) -> bool {
+        let f = match &self.reader_self { Some(f) => f, None => return false };
+        match a {
+            Expr::Reference(r) if r.mutability.is_some() => match &*r.expr {
+                Expr::Field(fe) => matches!(&*fe.base, Expr::Path(p) if p.path.is_ident("self")) && matches!(&fe.member, Member::Named(n) if n == f),
+                _ => false,
+            },
+            Expr::Path(p) if p.path.segments.len() == 1 => self.reader_aliases.contains(&path_last(&p.path)),
+            _ => false,
+        }
+    }
+
+    /// `let reader = &mut self.reader;`: a name for the device, no effect
+    pub(crate) fn t6r2_reader_alias(&mut self, l: &Local) -> bool {
+        if self.reader_self.is_none() {
+            return false;
+        }
+        if let (Pat::Ident(id), Some(init)) = (&l.pat, &l.init) {
+            if init.diverge.is_none() && matches!(&*init.expr, Expr::Reference(_)) && self.t6r2_is_self_reader(&init.expr) {
+                self.reader_aliases.insert(id.ident.to_string());
+                return true;
+            }
+        }
+        false
+    }
+
+    /// `v.get(i)` on a `Vec<T>` / `m.get(k)` on a `HashMap<K, V>`
+    pub(crate) fn t6r2_type_of(&self, e: &Expr) -> Option<String> {
+        if let Expr::MethodCall(m) = e {
+            if m.method == "get" && m.args.len() == 1 {
+                let rt = self.type_of(&m.receiver)?;
+                if let Some(x) = rt.strip_prefix("(Rs.Vec ").and_then(|x| x.strip_suffix(')')) {
+                    return Some(format!("(Option {x})"));
+                }
+                if rt.starts_with("(Rs.HashMap ") {
+                    let inner = rt.strip_prefix("(Rs.HashMap ")?.strip_suffix(')')?;
+                    // the value type is the last top-level component
+                    let mut depth = 0;
+                    let mut last = 0;
+                    for (i, ch) in inner.char_indices() {
+                        match ch {
+                            '(' => depth += 1,
+                            ')' => depth -= 1,
+                            ' ' if depth == 0 => last = i + 1,
+                            _ => {}
+                        }
+                    }
+                    return Some(format!("(Option {})", &inner[last..]));
+                }
+            }
+        }
+        if let Expr::Call(c) = e {
+            if let Expr::Path(p) = &*c.func {
+                if p.path.segments.len() >= 2 && p.path.segments[p.path.segments.len() - 2].ident == "Cow" && c.args.len() == 1 {
+                    return self.type_of(&c.args[0]).map(|t| format!("(Rs.Cow {t})"));
+                }
+            }
+        }
+        None
+    }
+
+    /// The callee of `f(..)` records stores: the label under which the caller passes them on (the text of the
+    /// first argument that is a plain local, i.e. the structure the callee stores through).
+    pub(crate) fn t6r2_store_label(&self, c: &ExprCall) -> Option<String> {
+        let p = match &*c.func { Expr::Path(p) => p, _ => return None };
+        let name = path_last(&p.path);
+        let lean = if p.path.segments.len() == 1 { format!("Gen.{name}") } else { format!("Gen.{}.{name}", p.path.segments[p.path.segments.len() - 2].ident) };
+        if !is_store_fn(&lean) {
+            return None;
+        }
+        for a in &c.args {
+            if let (Expr::Path(_), Some(v)) = (a, path_ident(a)) {
+                if !self.reader_aliases.contains(&v) && Some(&v) != self.reader.as_ref() {
+                    return Some(v);
+                }
+            }
+        }
+        Some(String::new())
+    }
+
+    /// `let (v, st) ← act`, the callee's stores appended to the function's own
+    pub(crate) fn t6r2_bind_store(&mut self, act: String, label: String) -> R<String> {
+        let st = self.rstores.clone().ok_or("call of a store-recording function from a function without a store list")?;
+        let t1 = self.fresh();
+        let t2 = self.fresh();
+        self.emit(format!("let ({t1}, {t2}) ← {act}"));
+        self.emit(format!("{st} := {st} ++ Rs.Stores.via \"{label}\" {t2}"));
+        Ok(t1)
+    }
+
+    /// `self.method(args)` on a translated method of the same structure (device = `self.reader`): the action
+    fn t6r2_self_callee(&mut self, m: &ExprMethodCall) -> R<Option<(String, bool)>> {
+        if self.mode != Mode::R || self.reader_self.is_none() || !matches!(&*m.receiver, Expr::Path(p) if p.path.is_ident("self")) {
+            return Ok(None);
+        }
+        let st = self.self_ty.clone().unwrap_or_default();
+        let key = format!("{st}::{}", m.method);
+        let mi = match self.reg.methods.get(&key) { Some(mi) if mi.has_self && mi.fi.mode == Mode::R => mi.clone(), _ => return Ok(None) };
+        if self.failed.contains(&key) {
+            return Err(format!("calls the untranslated {key}"));
+        }
+        if mi.fi.seek && !self.seekable {
+            return Err(format!("{key} needs a Seek reader"));
+        }
+        let mut args = vec![];
+        for a in &m.args {
+            args.push(self.expr(a)?);
+        }
+        let lean = format!("Gen.{st}.{}", m.method);
+        let ext = if t6r::is_ext_fn(&lean) { self.uses_ext = true; " ext" } else { "" };
+        let a = if args.is_empty() { String::new() } else { format!(" {}", args.join(" ")) };
+        Ok(Some((format!("{lean}{ext} self{a}"), is_store_fn(&lean))))
+    }
+
+    /// `self.method(args)?`
+    pub(crate) fn t6r2_self_call(&mut self, m: &ExprMethodCall) -> R<Option<String>> {
+        match self.t6r2_self_callee(m)? {
+            None => Ok(None),
+            Some((act, true)) => Ok(Some(self.t6r2_bind_store(act, "self".into())?)),
+            Some((act, false)) => Ok(Some(self.bind_typed(act, None))),
+        }
+    }
+
+    /// Result position: `self.method(args)` (the callee's outcome is the function's own) and
+    /// `opt.ok_or(e).and_then(move |x| body)` (bind: `x` is the `Ok` value, `body` the rest of the function; a `?`
+    /// inside the closure leaves the closure with the `Err`, which `and_then` returns unchanged).
+    pub(crate) fn t6r2_tail_method(&mut self, m: &ExprMethodCall) -> R<Option<String>> {
+        if let Some((act, store)) = self.t6r2_self_callee(m)? {
+            if store {
+                return Ok(Some(self.t6r2_bind_store(act, "self".into())?));
+            }
+            let ty = self.ret_ty.clone();
+            return Ok(Some(self.bind_typed(act, ty)));
+        }
+        if m.method == "and_then" && m.args.len() == 1 {
+            let cl = match &m.args[0] { Expr::Closure(cl) if cl.inputs.len() == 1 => cl, _ => return Ok(None) };
+            let var = match &cl.inputs[0] { Pat::Ident(id) if id.by_ref.is_none() && id.mutability.is_none() => id.ident.to_string(), _ => return Ok(None) };
+            let ok = match &*m.receiver { Expr::MethodCall(r) if r.method == "ok_or" && r.args.len() == 1 => r, _ => return Ok(None) };
+            if self.nontail_sub > 0 || self.in_loop > 0 {
+                return Err("and_then in a nested block".into());
+            }
+            let ty = self.type_of(&Expr::MethodCall(ok.clone()));
+            let recv = self.expr(&ok.receiver)?;
+            let mark = self.lines.len();
+            let e = self.expr(&ok.args[0])?;
+            if self.lines.len() != mark {
+                return Err("ok_or argument with effects".into());
+            }
+            let t = self.bind_typed(format!("Rs.R.ok_or {recv} {e}"), ty.clone());
+            match &ty {
+                Some(ty) => {
+                    self.emit(format!("let {var} : {ty} := {t}"));
+                    self.untyped.remove(&var);
+                    self.vars.insert(var.clone(), ty.clone());
+                }
+                None => {
+                    self.emit(format!("let {var} := {t}"));
+                    self.vars.remove(&var);
+                    self.untyped.insert(var.clone());
+                }
+            }
+            self.mut_vars.remove(&var);
+            self.tail = true;
+            self.expect = self.ret_ty.clone();
+            return Ok(Some(self.expr(&cl.body)?));
+        }
+        Ok(None)
     }
 
     /// `Enum::V { f: P, .. }` → `(Gen.Enum.V p1 … pn)`, unnamed fields are `_`
@@ -132,6 +418,13 @@ impl<'a> Tr<'a> {
 
     /// constructors of the external reader types
     pub(crate) fn t6r2_call(&mut self, first: &str, name: &str, c: &ExprCall) -> R<Option<String>> {
+        if first == "Cow" && (name == "Borrowed" || name == "Owned") && c.args.len() == 1 {
+            let a = self.expr(&c.args[0])?;
+            return Ok(Some(format!("(Rs.Cow.{name} {a})")));
+        }
+        if first == "String" && name == "new" && c.args.is_empty() {
+            return Ok(Some("([] : Bytes)".into()));
+        }
         if name != "new" || c.args.len() != 1 {
             return Ok(None);
         }
@@ -143,10 +436,28 @@ impl<'a> Tr<'a> {
         Ok(Some(format!("({l}.new {a})")))
     }
 
-    /// `ZstdDecoder::new(r).unwrap()`: `unwrap` of an `io::Result`
+    /// a pattern that names a translated integer constant (`spec::LOCAL_FILE_HEADER_SIGNATURE`)
+    pub(crate) fn t6r2_const_pat(&self, p: &Pat) -> Option<String> {
+        let path = match p {
+            Pat::Path(pp) => &pp.path,
+            _ => return None,
+        };
+        let n = path_last(path);
+        if self.reg.consts.contains(&n) && self.reg.const_ty.get(&n).map(|t| int_ty(t)).unwrap_or(false) {
+            Some(format!("Gen.{n}"))
+        } else {
+            None
+        }
+    }
+
+    /// `ZstdDecoder::new(r).unwrap()`: `unwrap` of an `io::Result`; `res.unwrap()` on a value of `Result` type
     pub(crate) fn t6r2_unwrap(&mut self, m: &ExprMethodCall) -> R<Option<String>> {
         if m.method != "unwrap" || !m.args.is_empty() {
             return Ok(None);
+        }
+        if self.type_of(&m.receiver).as_deref().and_then(split_except).is_some() {
+            let v = self.expr(&m.receiver)?;
+            return Ok(Some(self.bind_m(format!("Rs.unwrapRes {v}"))));
         }
         if let Expr::Call(c) = &*m.receiver {
             if let Expr::Path(p) = &*c.func {
